@@ -684,6 +684,56 @@ func keOracle(r *rand.Rand, n int, tier string, infile string) (cases int, fails
 			bad("C03 a party holding only key 3 brought a responder to usable with the victim's key 0 as its remote key")
 		}
 	}
+	// C03: a liar. A real Session whose registry marshals the VICTIM's public key wherever its own belongs, while it
+	// signs with its own private key (key 3): every claim it makes (InitHello time-stamp claim, RespHello and InitDone
+	// channel-binding signatures) is well-formed, names the victim and carries a signature the victim never made.
+	liarCase := func() {
+		cases++
+		victim := 0
+		lying := func() x509.Registry {
+			c := x509.DefaultRegistry()[x509.Algo_Ed25519]
+			vpub, _ := x509.DefaultRegistry().PublicFromPrivate(&keKeys[victim])
+			c.MarshalPublic = func(out []byte, _ x509.Verifier) []byte { return append(out, vpub.Data...) }
+			return x509.Registry{x509.Algo_Ed25519: c}
+		}
+		newLiar := func(init bool, t int) *p2pke.Session {
+			return p2pke.NewSession(p2pke.SessionConfig{Registry: lying(), PrivateKey: keKeys[3], IsInit: init,
+				Now: base.Add(time.Duration(t) * time.Second), RejectAfter: 1e6 * time.Hour, Logger: zap.NewNop()})
+		}
+		// (a) liar initiates towards an honest responder
+		L, R := newLiar(true, 1), newSess(false, 1, 2)
+		var toR, toL []byte = L.Handshake(nil), nil
+		for k := 0; k < 3; k++ {
+			if len(toR) > 0 {
+				_, toL, _ = R.Deliver(nil, toR, now)
+			}
+			toR = nil
+			if len(toL) > 0 {
+				_, toR, _ = L.Deliver(nil, toL, now)
+			}
+			toL = nil
+			if m := L.Handshake(nil); len(toR) == 0 && len(m) > 0 {
+				toR = m
+			}
+		}
+		if keyIndex(R.RemoteKey()) == strconv.Itoa(victim) && (R.IsReady() || R.VerifCanSend() || R.VerifCanReceive() || R.VerifHsIndex() > 0) {
+			bad("C03 a responder took key %d as its peer (hsIndex %d, ready=%v) from an initiator that signed every claim with key 3", victim, R.VerifHsIndex(), R.IsReady())
+		}
+		// (b) liar answers an honest initiator
+		I, L2 := newSess(true, 1, 3), newLiar(false, 4)
+		_, rh, _ := L2.Deliver(nil, I.Handshake(nil), now)
+		if len(rh) > 0 {
+			I.Deliver(nil, rh, now)
+			if d := I.Handshake(nil); len(d) > 0 {
+				if _, rd, _ := L2.Deliver(nil, d, now); len(rd) > 0 {
+					I.Deliver(nil, rd, now)
+				}
+			}
+		}
+		if keyIndex(I.RemoteKey()) == strconv.Itoa(victim) && (I.IsReady() || I.VerifCanSend() || I.VerifCanReceive() || I.VerifHsIndex() > 0) {
+			bad("C03 an initiator took key %d as its peer (hsIndex %d, ready=%v) from a responder that signed the channel binding with key 3", victim, I.VerifHsIndex(), I.IsReady())
+		}
+	}
 	// C06: the RespDone is lost, the responder's data arrives instead: that completes the initiator (data flows both
 	// ways as soon as each side's current message got through; the responder's current message then is data)
 	overtakeCase := func() {
@@ -971,6 +1021,7 @@ func keOracle(r *rand.Rand, n int, tier string, infile string) (cases int, fails
 			halfOpenCase()
 			lateRekeyCase()
 			overtakeCase()
+			liarCase()
 		}
 	}
 	nk := 1
